@@ -202,14 +202,15 @@ Qed.
 Lemma mvcalc_spec : forall fuel chk rs h t,
   depth t < fuel -> rep h t -> sep t -> cache_ok rs h t ->
   exists h', mvcalc H fuel chk rs h (aroot t) = (h', if rs then hr t else mvn t)
-             /\ fillsP (sub_of t) (only t rs) h h'.
+             /\ fillsP (sub_of t) (only t rs) h h'
+             /\ (chk = false -> exists c', h' (aroot t) = Some c' /\ c_mv c' = Some (if rs then hr t else mvn t)).
 Proof.
   induction fuel as [|f IH]; intros chk rs h t Hd Hr Hs Hc; [lia|].
   destruct t as [a pk sv mbh gn isb ks]. simpl aroot. simpl mvcalc.
   destruct (rep_cell _ _ Hr) as (c & Hca & Hci). simpl in Hca. rewrite Hca.
   pose proof (proj1 (cache_ok_unfold _ _ _) Hc) as (Hc1 & Hc2). simpl in Hc1, Hc2.
   destruct (if chk then cache_hit rs c else None) as [v|] eqn:Ehit.
-  - destruct chk; [|discriminate]. exists h. split; [|apply fillsP_refl].
+  - destruct chk; [|discriminate]. exists h. split; [|split; [apply fillsP_refl | discriminate]].
     f_equal. eapply cache_hit_value; eauto.
   - (* encode: fold over the children *)
     assert (Hfold : forall ks0 h0,
@@ -223,7 +224,7 @@ Proof.
         assert (Hdk : depth k < f).
         { assert (depth k < depth (AN a pk sv mbh gn isb ks)) by (apply depth_kid; simpl; apply Hin; simpl; auto). lia. }
         assert (Hsk : sep k) by (eapply sep_kid; eauto; simpl; apply Hin; simpl; auto).
-        destruct (IH true false h0 k Hdk Hrk Hsk Hck) as (h1 & E1 & F1). rewrite E1.
+        destruct (IH true false h0 k Hdk Hrk Hsk Hck) as (h1 & E1 & F1 & _). rewrite E1.
         assert (F1' : fillsP (sub_of k) none_of h0 h1).
         { eapply fillsP_mono; eauto. intros r [? _]; discriminate. }
         destruct (IHk h1) as (h2 & E2 & F2).
@@ -248,13 +249,102 @@ Proof.
     assert (Hkids : c_kids c = map oroot ks) by (unfold cell_is in Hci; tauto).
     rewrite Hkids, E1.
     assert (Henc : enc_cell H c (kenc penc ks) = penc (AN a pk sv mbh gn isb ks)) by (apply penc_cell; auto).
-    rewrite Henc. eexists. split; [reflexivity|].
-    eapply fillsP_trans.
-    + eapply fillsP_mono; [exact F1 | | intros r []].
-      intros s (k & Hk & Hsk). apply in_subts. right; eauto.
-    + apply set_mv_fills. destruct rs.
-      * right. exists (AN a pk sv mbh gn isb ks). repeat split; auto.
-      * left. exists (AN a pk sv mbh gn isb ks). repeat split; auto. apply in_subts_self.
+    rewrite Henc. eexists. split; [reflexivity|]. split.
+    + eapply fillsP_trans.
+      * eapply fillsP_mono; [exact F1 | | intros r []].
+        intros s (k & Hk & Hsk). apply in_subts. right; eauto.
+      * apply set_mv_fills. destruct rs.
+        -- right. exists (AN a pk sv mbh gn isb ks). repeat split; auto.
+        -- left. exists (AN a pk sv mbh gn isb ks). repeat split; auto. apply in_subts_self.
+    + intros _. unfold set_mv. pose proof (F1 a) as Fa. rewrite Hca in Fa. destruct Fa as (c1 & Ec1 & _).
+      rewrite Ec1, upd_eq. eexists. split; [reflexivity|]. destruct rs; reflexivity.
+Qed.
+
+Lemma set_clean_fills (S R : atree -> Prop) h a c v :
+  h a = Some c -> c_mv c = Some v ->
+  (exists s, S s /\ aroot s = a /\ v = mvn s) \/ (exists r, R r /\ aroot r = a /\ v = hr r) ->
+  fillsP S R h (set_clean h a).
+Proof.
+  intros Ea Hm Hv x. unfold set_clean. rewrite Ea.
+  destruct (N.eq_dec x a) as [->|Hne].
+  - rewrite Ea, upd_eq. exists (set_clean_c c). split; auto. split; [repeat split|].
+    right. simpl. rewrite Hm. destruct Hv as [(s & ? & ? & ->)|(r & ? & ? & ->)]; [left | right]; eauto.
+  - rewrite upd_neq by auto. destruct (h x) as [c0|]; auto. exists c0. repeat split; auto.
+Qed.
+
+(* writeDirtyNode only makes valid cache fills *)
+Lemma commit_node_spec : forall fuel cf rs h t,
+  depth t < cf -> rep h t -> sep t -> cache_ok rs h t ->
+  fillsP (sub_of t) (only t rs) h (commit_node H fuel cf rs h (aroot t)).
+Proof.
+  induction fuel as [|f IH]; intros cf rs h t Hd Hr Hs Hc; [apply fillsP_refl|].
+  destruct t as [a pk sv mbh gn isb ks]. set (t := AN a pk sv mbh gn isb ks) in *.
+  destruct (rep_cell _ _ Hr) as (c & Hca & Hci). simpl in Hca.
+  change (aroot t) with a. cbn [commit_node]. rewrite Hca.
+  destruct (negb (c_dirty c)); [apply fillsP_refl|].
+  destruct (mvcalc_spec cf false rs h t Hd Hr Hs Hc) as (h1 & E1 & F1 & Hmv).
+  change (aroot t) with a in E1. rewrite E1.
+  destruct (Hmv eq_refl) as (c1 & Hc1 & Hm1). change (aroot t) with a in Hc1.
+  assert (Hvalid : (exists s, sub_of t s /\ aroot s = a /\ (if rs then hr t else mvn t) = mvn s)
+                   \/ (exists r, only t rs r /\ aroot r = a /\ (if rs then hr t else mvn t) = hr r)).
+  { destruct rs; [right | left]; exists t; repeat split; auto. apply in_subts_self. }
+  assert (Hclean1 : fillsP (sub_of t) (only t rs) h (set_clean h1 a)).
+  { eapply fillsP_trans; [exact F1|]. eapply set_clean_fills; eauto. }
+  destruct (length (if rs then hr t else mvn t) <? 32); [exact Hclean1|].
+  destruct (negb (c_isb c)); [exact Hclean1|].
+  (* the children *)
+  assert (Hkids : c_kids c = map oroot ks) by (unfold t, cell_is in Hci; tauto).
+  rewrite Hkids.
+  assert (Hfold : forall ks0 h0,
+             (forall k, In (Some k) ks0 -> In (Some k) ks) ->
+             (forall k, In (Some k) ks0 -> rep h0 k /\ cache_ok false h0 k) ->
+             fillsP (sub_of_kids ks0) none_of h0
+                    (fold_left (fun hh k => match k with Some ka => commit_node H f cf false hh ka | None => hh end)
+                               (map oroot ks0) h0)).
+  { induction ks0 as [|[k|] ks0 IHk]; intros h0 Hin Hk0; simpl.
+    - apply fillsP_refl.
+    - destruct (Hk0 k (or_introl eq_refl)) as (Hrk & Hck).
+      assert (Hink : In (Some k) ks) by (apply Hin; simpl; auto).
+      assert (Hdk : depth k < cf).
+      { assert (depth k < depth t) by (apply depth_kid; auto). lia. }
+      assert (Hsk : sep k) by (eapply (sep_kid t); eauto).
+      pose proof (IH cf false h0 k Hdk Hrk Hsk Hck) as Fk.
+      set (h0' := commit_node H f cf false h0 (aroot k)) in *.
+      assert (Fk' : fillsP (sub_of k) none_of h0 h0').
+      { eapply fillsP_mono; eauto. intros r [? _]; discriminate. }
+      eapply fillsP_trans.
+      + eapply fillsP_mono; [exact Fk' | | auto]. intros s Hs0. exists k; simpl; auto.
+      + eapply fillsP_mono; [apply IHk | | auto].
+        * intros; apply Hin; simpl; auto.
+        * intros k' Hk'. destruct (Hk0 k' (or_intror Hk')) as (Hrk' & Hck'). split.
+          -- eapply fillsP_rep; eauto.
+          -- eapply fillsP_cache_ok; eauto.
+             ++ intros s [Hs0|Hn]; [|destruct Hn]. exact (rep_subt _ _ _ Hrk Hs0).
+             ++ apply (sep_kid t k' Hs). apply Hin; simpl; auto.
+             ++ intros r Hn; destruct Hn.
+        * intros s (k' & ? & ?). exists k'; simpl; auto.
+    - eapply fillsP_mono; [apply IHk | | auto].
+      + intros; apply Hin; simpl; auto.
+      + intros; apply Hk0; simpl; auto.
+      + intros s (k' & ? & ?). exists k'; simpl; auto. }
+  set (h2 := fold_left _ (map oroot ks) h1).
+  assert (F2 : fillsP (sub_of_kids ks) none_of h1 h2).
+  { apply Hfold; auto. intros k Hk. split.
+    - eapply fillsP_rep; eauto. eapply rep_kid; eauto.
+    - eapply fillsP_cache_ok; eauto.
+      + intros s [Hs0|[_ ->]]; auto. exact (rep_subt _ _ _ Hr Hs0).
+      + eapply rep_kid; eauto.
+      + eapply sep_kid; eauto.
+      + intros r [_ ->] Hin. exfalso. eapply (sep_root_not_in_kid t k Hs Hk); eauto.
+      + eapply cache_ok_kid; eauto. }
+  assert (Ea2 : h2 a = h1 a).
+  { eapply fillsP_out; eauto. intros s [(k & Hk & Hsk)|[]] E.
+    eapply (sep_root_not_in_kid t k Hs Hk). change (aroot t) with a. rewrite <- E.
+    eapply subts_addrs; eauto. apply aroot_in_addrs. }
+  eapply fillsP_trans; [exact F1|]. eapply fillsP_trans.
+  - eapply fillsP_mono; [exact F2 | | intros r []].
+    intros s (k & Hk & Hsk). apply in_subts. right; eauto.
+  - eapply set_clean_fills; eauto. congruence.
 Qed.
 
 End Cache.
